@@ -597,7 +597,8 @@ fn create_doc_without_preceding_comment(
         comment_store,
         expression,
         &e.argument,
-        false,
+        // The parser does not accept a unary expression as the operand of a unary operator.
+        true,
       )),
     ),
     expr::E::IfElse(e) => create_doc_for_if_else(heap, comment_store, e),
